@@ -168,6 +168,18 @@ def _shard_worker(pid: str, tier: str, shard: int, seed_base: int) -> dict:
     }
 
 
+def _limit_memory() -> None:
+    """Worker initializer: cap the address space so that runaway allocation in the code under test surfaces as
+    MemoryError inside the call (classified like any other internal error) instead of the OOM killer."""
+    import resource
+
+    gb = float(os.environ.get("PMVERIF_WORKER_MEM_GB", "6"))
+    try:
+        resource.setrlimit(resource.RLIMIT_AS, (int(gb * 2**30), int(gb * 2**30)))
+    except (ValueError, OSError):
+        pass
+
+
 def exhaustive_worker(args: tuple) -> dict:
     pid, tier, idx, desc = args
     t0 = time.monotonic()
@@ -279,10 +291,35 @@ def run_property(pid: str, tier: str) -> int:
     ctxm = mp.get_context("fork")
     skipped = 0
     exhaustive_complete = bool(xjobs)
-    with ctxm.Pool(nproc) as pool:
-        r1 = pool.map_async(shard_worker, jobs, chunksize=1) if jobs and b["examples"] > 0 else None
-        r2 = pool.map_async(exhaustive_worker, xjobs, chunksize=1) if xjobs else None
-        results = (r1.get() if r1 else []) + (r2.get() if r2 else [])
+    # ProcessPoolExecutor (not multiprocessing.Pool): a worker that dies (e.g. killed for memory) breaks the pool
+    # instead of hanging it; an overall deadline bounds the whole run.
+    from concurrent.futures import ProcessPoolExecutor, wait
+    from concurrent.futures.process import BrokenProcessPool
+
+    overall = float(os.environ.get("PMVERIF_DEADLINE_S", "900" if tier == "quick" else "7200"))
+    results = []
+    ex = ProcessPoolExecutor(max_workers=nproc, mp_context=ctxm, initializer=_limit_memory)
+    try:
+        futs = []
+        if jobs and b["examples"] > 0:
+            futs += [(ex.submit(shard_worker, j), f"shard {j[2]}") for j in jobs]
+        futs += [(ex.submit(exhaustive_worker, j), f"exhaustive {j[2]}") for j in xjobs]
+        wait([f for f, _ in futs], timeout=overall)
+        for f, name in futs:
+            if not f.done():
+                harness.append(f"{name}: did not finish within the overall deadline of {overall:.0f}s")
+                continue
+            try:
+                results.append(f.result())
+            except BrokenProcessPool:
+                harness.append(f"{name}: worker process died (killed or crashed the interpreter)")
+            except Exception:  # noqa: BLE001
+                harness.append(f"{name}:\n{traceback.format_exc()[-1500:]}")
+    finally:
+        for pr in list(getattr(ex, "_processes", {}).values()):
+            if pr.is_alive():
+                pr.terminate()
+        ex.shutdown(wait=False, cancel_futures=True)
     if os.environ.get("PMVERIF_DEBUG"):
         for r in results:
             print(f"  shard {r['shard']}: wall={r.get('wall', 0):.1f}s evals={r['ctx']['evaluations']} skipped={r.get('skipped')}", file=sys.stderr)
